@@ -9,7 +9,7 @@ import TrompModel.Model.Ring
 namespace Tromp.Cxx
 
 /-- `list<T, Disposer>::begin` — translated from include/trompeloeil/mock.hpp:1573 -/
-def ring_begin (this : Ring.Ptr) (h : Ring.Heap) : Ring.Ptr := Id.run do
+def ring_begin (this : Ring.Ptr) (h : Ring.Heap Ring.Ptr) : Ring.Ptr := Id.run do
   return (h.next this)
 
 end Tromp.Cxx
